@@ -266,6 +266,9 @@ def execute(run):
         if entry == 6:
             # the reference of an edited buffer is the plain conversion of the second document
             r = d.conv(doc.split('\x1e', 1)[1], entry=3, flags=7, bg=bg, fill=fill, scale=scale)
+        elif entry == 5:
+            # the reference of a buffer that was rendered before with other settings is the plain conversion
+            r = d.conv(doc, entry=3, flags=7, bg=bg, fill=fill, scale=scale)
         else:
             r = d.conv(doc, entry=entry, flags=7, bg=bg, fill=fill, scale=scale)
         ref.append(r.out.encode('utf-8', 'surrogateescape') if r.ok else b'PANIC ' + r.out.encode())
@@ -299,6 +302,12 @@ def execute(run):
     winners = [k for k in run.tags if k.startswith('init_winner_')]
     run.tags['distinct_init_winners'] = len(winners)
     run.tags['inputs_order_varied'] = int(run.maxima.get('inputs_order_varied_in_one_process', 0))
+    if run.tags['inputs_order_varied'] == 0 and run.tags.get('processes', 0) >= 8:
+        # not one input was visited in two different orders in any process: the tree under test visits the
+        # property cells in a fixed order (std's HashMap would vary with every map instance), so there is no
+        # order to vary; the byte comparison across processes stands on its own
+        run.floors_not_applicable = {'inputs_order_varied': 'no input was visited in two different orders in any of the processes'}
+        run.extra_cov['floors_not_applicable'] = run.floors_not_applicable
     run.extra_cov['corpus_documents'] = len(keys)
     if not quick:
         tsan_leg(run, extra, keys)
